@@ -1,7 +1,8 @@
 /-
 Line-protocol driver for the HTLC model and the C03 / C04 monitors.
   model   <ops>              : prints one observation line per op line
-  monitor <C03|C04> <ops> <obs> : evaluates the Spec on the implementation's observation stream
+  monitor <C03|C04|C13> <ops> <obs> : evaluates the Spec on the implementation's observation stream
+                               (C13 = the HTLC slice: begin block completes, due contracts handled exactly once, queue hygiene)
 -/
 import Irismod.Spec.C03
 import Irismod.Spec.C04
@@ -235,7 +236,7 @@ def runMonitor (prop : String) (ops obs : Array String) : IO Unit := do
       match parseState o with
       | some s =>
         pre := s; s0 := s; consecutive := true
-        if prop == "C03" then
+        if prop == "C03" || prop == "C13" then
           if !(Spec.C03.queueOk s) then fail "queue-bijection"; fails := fails + 1
         else
           if !(Spec.C04.escrowEqB s && Spec.C04.countersB s && Spec.C04.limitsB s) then
@@ -254,7 +255,16 @@ def runMonitor (prop : String) (ops obs : Array String) : IO Unit := do
         match op with
         | .beginBlock h _ => if h != pre.height + 1 then consecutive := false
         | _ => pure ()
-        if prop == "C03" then
+        if prop == "C13" then
+          -- HTLC slice of C13: begin block completes (above), each due contract is refunded in the
+          -- block of its expiration height and only then, exactly once (closed records are frozen),
+          -- queue entries <-> open contracts, nothing queued at or below the current height
+          if !(Spec.C03.progressOk pre op accepted post) then fail "due-not-processed"; fails := fails + 1
+          if !(Spec.C03.automatonOk pre op accepted post) then fail "processed-exactly-once"; fails := fails + 1
+          if !(Spec.C03.queueOk post) then fail "queue-bijection"; fails := fails + 1
+          if consecutive && Spec.C03.queueFutureOk pre then
+            if !(Spec.C03.queueFutureOk post) then fail "stale-queue-entry"; fails := fails + 1
+        else if prop == "C03" then
           if !(Spec.C03.automatonOk pre op accepted post) then fail "automaton"; fails := fails + 1
           if !(Spec.C03.createdOk pre op accepted post) then fail "created"; fails := fails + 1
           if !(Spec.C03.progressOk pre op accepted post) then fail "progress"; fails := fails + 1
@@ -294,7 +304,8 @@ def main (args : List String) : IO UInt32 := do
   | ["model", ops] => runModel (← readLines ops); return 0
   | ["monitor", "C03", ops, obs] => runMonitor "C03" (← readLines ops) (← readLines obs); return 0
   | ["monitor", "C04", ops, obs] => runMonitor "C04" (← readLines ops) (← readLines obs); return 0
-  | _ => IO.eprintln "usage: model <ops> | monitor <C03|C04> <ops> <obs>"; return 2
+  | ["monitor", "C13", ops, obs] => runMonitor "C13" (← readLines ops) (← readLines obs); return 0
+  | _ => IO.eprintln "usage: model <ops> | monitor <C03|C04|C13> <ops> <obs>"; return 2
 
 end Driver.Htlc
 
